@@ -104,9 +104,9 @@ def stepDist {α} (c : Cfg α) (s : St α) : St α :=
   | .term .err :: rest => { s with pipe0 := rest, dist := some .err, closedW := true, term := some .err }
   | .term .done :: rest => { s with pipe0 := rest, dist := some .ok, closedW := true, term := some .done }
   | .entry a :: rest =>
-    let i := c.route a % c.n
-    if (s.pipes i).length < c.capW then
-      { s with pipe0 := rest, pipes := upd s.pipes i (s.pipes i ++ [a]), consumed := s.consumed ++ [a] }
+    if (s.pipes (c.route a % c.n)).length < c.capW then
+      { s with pipe0 := rest, pipes := upd s.pipes (c.route a % c.n) (s.pipes (c.route a % c.n) ++ [a]),
+               consumed := s.consumed ++ [a] }
     else s
 
 def stepDistCancel {α} (s : St α) : St α :=
